@@ -248,7 +248,18 @@ def head_tokens(markup):
 
 
 def check_render(ctx, recipes, n_place, lib_prefix, include_version, rng):
-    wit = {"deps": recipes, "placeholders": n_place, "lib_prefix": lib_prefix, "include_version": include_version}
+    # the placeholder is whatever string the caller chose - white space at its ends included (a whole template line)
+    global PLACEHOLDER
+    saved_ph = PLACEHOLDER
+    PLACEHOLDER = rng.choice([saved_ph, saved_ph, "  DEPS-LINE\n", "\t{{deps}} ", " @@ ", "DEPS"])
+    try:
+        return _check_render(ctx, recipes, n_place, lib_prefix, include_version, rng)
+    finally:
+        PLACEHOLDER = saved_ph
+
+
+def _check_render(ctx, recipes, n_place, lib_prefix, include_version, rng):
+    wit = {"deps": recipes, "placeholders": n_place, "lib_prefix": lib_prefix, "include_version": include_version, "placeholder": PLACEHOLDER}
     deps = [gen.build(r) for r in recipes]
     parts = ["<html><head>"] + ["<i>between%d</i>" % k for k in range(max(n_place - 1, 0))] + ["</head><body>B</body></html>"]
     template = PLACEHOLDER.join(parts) if n_place else "".join(parts)
